@@ -56,6 +56,9 @@ META = dict(
 META["rule"] += (
     " " + 'Added after the third round: spawn-pool variants with nsi=False, with and without source / target sets.')
 
+META["rule"] += (
+    " " + "Added after the fifth round: the Arenas measure runs on components up to 95 nodes, the sizes with a short last chunk (64, 73, 82, 91) taken in turn; a fifth of the master-loop runs use the library's own submit_call / get_result in their mode without slaves.")
+
 MEASURES = [
     ("newman_betweenness", {}),
     ("nsi_newman_betweenness", {}),
